@@ -1,7 +1,7 @@
 (* Property theorems of the Pool cluster (C16..C21). Nothing but statements, [exact], and
    Print Assumptions. *)
 From FC Require Import Pool.Model Pool.ProofsBase Pool.ProofsCore Pool.ProofsRemoval Pool.ProofsOps
-  Pool.ProofsInsert Pool.ProofsCheck Pool.Proofs18 Pool.Proofs19 Pool.Proofs20 Pool.Proofs21.
+  Pool.ProofsInsert Pool.ProofsCheck Pool.Proofs18 Pool.Proofs18b Pool.Proofs19 Pool.Proofs20 Pool.Proofs20b Pool.Proofs21.
 Open Scope N_scope.
 
 (* ------------------------------------------------------------------ *)
@@ -117,6 +117,27 @@ Theorem sorted_keys_ratio : forall a b, key_before a b = true ->
 Proof. exact key_before_ratio. Qed.
 Print Assumptions sorted_keys_ratio.
 
+(* the order of the executable list is transitive on keys with positive max_gas, and the two
+   operations by which every pool function changes the list keep it sorted (building blocks of the
+   sortedness invariant; its preservation by every operation is not assembled) *)
+Theorem key_order_transitive : forall a b c, 0 < k_den a -> 0 < k_den b -> 0 < k_den c ->
+  key_before a b = true -> key_before b c = true -> key_before a c = true.
+Proof.
+  intros a b c Ha Hb Hc H1 H2. apply key_before_KB.
+  exact (KB_trans a b c Ha Hb Hc (proj1 (key_before_KB a b) H1) (proj1 (key_before_KB b c) H2)).
+Qed.
+Print Assumptions key_order_transitive.
+
+Theorem exec_insert_keeps_sorted_partial : forall k l, sorted_keys l = true -> denpos l -> 0 < k_den k ->
+  sorted_keys (exec_insert k l) = true /\ denpos (exec_insert k l).
+Proof. exact exec_insert_sorted_all. Qed.
+Print Assumptions exec_insert_keeps_sorted_partial.
+
+Theorem exec_remove_keeps_sorted_partial : forall k l, sorted_keys l = true -> denpos l ->
+  sorted_keys (exec_remove k l) = true /\ denpos (exec_remove k l).
+Proof. exact exec_remove_sorted_all. Qed.
+Print Assumptions exec_remove_keeps_sorted_partial.
+
 (* ------------------------------------------------------------------ *)
 (* C19. An accepted insertion implies: max_gas > 0, id not pooled, not recorded as spent, not
    in the database, blob not taken, every input passed validate_inputs (pool-created coin: output
@@ -183,6 +204,14 @@ Theorem rollback_clears : forall p id,
   lru_mem (KTx id) (s_lru (p_spent p')) = false /\ amem N.eqb id (s_tentative (p_spent p')) = false.
 Proof. exact rollback_clears_all. Qed.
 Print Assumptions rollback_clears.
+
+(* after the rollback of a preconfirmed transaction no pool transaction spends one of its coin
+   outputs: its dependents are evicted (from every state satisfying the core invariant) *)
+Theorem rollback_evicts_dependents : forall p id, Core (core_of p) ->
+  forall x, In x (txs (p_g (rollback_preconfirmed_transaction p id))) ->
+  forall i, In (id, i) (coin_inputs x) -> i < 65535 -> False.
+Proof. exact rollback_evicts_dependents_all. Qed.
+Print Assumptions rollback_evicts_dependents.
 
 Theorem block_preserves_core : forall w h ids, CoreInv (w_pool w) -> CoreInv (w_pool (process_block w h ids)).
 Proof. exact process_block_inv. Qed.
